@@ -65,6 +65,17 @@ pub fn gen_surface(rng: &mut Rng, max: i32, allow_zero: bool, transparent_ok: bo
     SurfSpec { w, h, pixels }
 }
 
+/// thorough tier only: a long and flat (or tall and thin) surface, so that long rows, many
+/// sample rows and the u16 casts of the shaders see more than a few dozen pixels
+pub fn gen_surface_big(rng: &mut Rng, transparent_ok: bool) -> SurfSpec {
+    let long = rng.range(90, 300);
+    let short = rng.range(1, 4);
+    let (w, h) = if rng.chance(2, 3) { (long, short) } else { (short, long) };
+    let n = (w * h) as usize;
+    let pixels = if transparent_ok && rng.chance(1, 6) { vec![0; n] } else { busy_pixels(rng, n) };
+    SurfSpec { w, h, pixels }
+}
+
 // ---------------------------------------------------------------------------
 // geometry
 
